@@ -68,44 +68,42 @@ Proof.
     lia.
 Qed.
 
-(* whenever the estimate is exact the C function returns the standard's value *)
-Lemma from_hash_exact z : 0 <= z -> fh_quot z = z / (Nord - 1) -> from_hash_impl z = from_hash_spec z.
+(* sm9_z256_modn_from_hash (with the correction step of 3d68e44) is the standard's map for EVERY
+   320-bit input *)
+Lemma from_hash_ok z : 0 <= z < 2 ^ 320 -> from_hash_impl z = from_hash_spec z.
 Proof.
-  intros Hz Hq. unfold from_hash_impl, from_hash_spec. cbv zeta. rewrite Hq.
+  intros Hz. pose proof (fh_quot_bounds z Hz) as [Hlo Hhi].
+  unfold from_hash_impl, from_hash_spec. cbv zeta.
   pose proof N_facts as [HN1 HN2]. assert (E255 : 0 < 2 ^ 255) by reflexivity.
   assert (EW : W256 = 2 ^ 256) by reflexivity. assert (E256 : 2 ^ 256 = 2 * 2 ^ 255) by reflexivity.
-  set (n1 := Nord - 1) in *.
-  pose proof (Z.div_mod z n1 ltac:(lia)) as Hd. pose proof (Z.mod_pos_bound z n1 ltac:(lia)) as Hb.
-  set (qt := z / n1) in *. set (rem := z mod n1) in *.
-  assert (Hh : (z mod W256 - (qt * n1) mod W256) mod W256 = rem).
-  { rewrite <- Zminus_mod. replace (z - qt * n1) with rem by lia. apply Z.mod_small. lia. }
-  rewrite Hh. unfold modn_add. cbv zeta.
-  destruct (W256 <=? rem + 1) eqn:E1; [apply Z.leb_le in E1; lia |].
-  destruct (Nord <=? rem + 1) eqn:E2; [apply Z.leb_le in E2; lia |]. reflexivity.
-Qed.
-
-(* ... which is the case for every input whose residue is not tiny *)
-Lemma from_hash_ok z : 0 <= z < 2 ^ 320 -> 2 ^ 192 + 2 ^ 64 <= z mod (Nord - 1) ->
-  from_hash_impl z = from_hash_spec z.
-Proof.
-  intros Hz Hrem. apply from_hash_exact; [lia |].
-  pose proof (fh_quot_bounds z Hz) as [Hlo Hhi].
-  pose proof N_facts as [HN1 HN2]. assert (E255 : 0 < 2 ^ 255) by reflexivity.
+  assert (E192 : 2 ^ 192 + 2 ^ 64 < 2 ^ 255) by reflexivity.
+  assert (Efit : Nord - 1 + (2 ^ 192 + 2 ^ 64) < 2 ^ 256) by reflexivity.
   set (n1 := Nord - 1) in *. set (q := fh_quot z) in *.
-  pose proof (Z.div_mod z n1 ltac:(lia)) as Hd. pose proof (Z.mod_pos_bound z n1 ltac:(lia)) as Hb.
-  set (qt := z / n1) in *. set (rem := z mod n1) in *.
-  (* q <= qt, and q = qt - 1 would force rem < 2^192 + 2^64 *)
-  assert (q <= qt) by nia.
-  assert (qt <= q) by nia.
-  lia.
+  set (d := z - q * n1).
+  assert (Hd : 0 <= d < n1 + (2 ^ 192 + 2 ^ 64)).
+  { unfold d. replace ((q + 1) * n1) with (q * n1 + n1) in Hhi by ring. generalize dependent (q * n1). intros; lia. }
+  assert (Hh : (z mod W256 - (q * n1) mod W256) mod W256 = d).
+  { rewrite <- Zminus_mod. fold d. apply Z.mod_small. lia. }
+  rewrite Hh.
+  assert (Hrem : (if n1 <=? d then d - n1 else d) = z mod n1).
+  { destruct (n1 <=? d) eqn:E; [apply Z.leb_le in E | apply Z.leb_gt in E].
+    - apply Z.mod_unique with (q + 1); [lia | unfold d; ring].
+    - apply Z.mod_unique with q; [lia | unfold d; ring]. }
+  rewrite Hrem. pose proof (Z.mod_pos_bound z n1 ltac:(lia)) as Hb.
+  unfold modn_add. cbv zeta.
+  destruct (W256 <=? z mod n1 + 1) eqn:E1; [apply Z.leb_le in E1; lia |].
+  destruct (Nord <=? z mod n1 + 1) eqn:E2; [apply Z.leb_le in E2; lia |]. reflexivity.
 Qed.
+Lemma from_hash_range z : 0 <= z < 2 ^ 320 -> 1 <= from_hash_impl z <= Nord - 1.
+Proof. intros Hz. rewrite (from_hash_ok z Hz). apply from_hash_spec_range. Qed.
 
-(* the missing correction step: Ha = N-1 is mapped to 0, outside [1, N-1] (the standard gives 1);
-   for a residue r < 2^192 the function returns r instead of r+1 *)
-Example from_hash_range_refuted :
-  from_hash_impl (Nord - 1) = 0 /\ from_hash_spec (Nord - 1) = 1 /\
-  from_hash_impl (3 * (Nord - 1) + 5) = 5 /\ from_hash_spec (3 * (Nord - 1) + 5) = 6.
-Proof. repeat split; vm_compute; reflexivity. Qed.
+(* history: before 3d68e44 there was no correction step: Ha = N-1 was mapped to 0, outside
+   [1, N-1], and a residue r < 2^192 to r instead of r+1.  The repaired function is right there. *)
+Example from_hash_old_refuted :
+  from_hash_impl_old (Nord - 1) = 0 /\ from_hash_spec (Nord - 1) = 1 /\
+  from_hash_impl_old (3 * (Nord - 1) + 5) = 5 /\ from_hash_spec (3 * (Nord - 1) + 5) = 6 /\
+  from_hash_impl (Nord - 1) = 1 /\ from_hash_impl (3 * (Nord - 1) + 5) = 6.
+Proof. split; [| split; [| split; [| split; [| split]]]]; vm_compute; reflexivity. Qed.
 
 (* sm9_z256_modn_add / _sub on reduced operands *)
 Lemma modn_add_ok a b : 0 <= a < Nord -> 0 <= b < Nord -> modn_add a b = (a + b) mod Nord.
